@@ -33,6 +33,53 @@ func (p *Prog) pairKind(sig *types.Signature) string {
 	return ""
 }
 
+// statusAmongResults: fn (a module function whose last result is an error and
+// which has more than two results) carries a status or outcome in the result
+// before the error, and on every return either the error is the nil constant
+// or that result is the failed / unknown constant. Returns the index and kind.
+func (p *Prog) statusAmongResults(fn *ssa.Function) (int, string) {
+	if fn == nil || fn.Blocks == nil || !inModule(fn) || fn.Signature.Results().Len() < 3 || !lastIsError(fn.Signature) {
+		return 0, ""
+	}
+	n := fn.Signature.Results().Len()
+	j := n - 2
+	kind := ""
+	switch t := fn.Signature.Results().At(j).Type(); {
+	case types.Identical(t, p.A.StatusType):
+		kind = "status"
+	case types.Identical(t, p.A.PredType):
+		kind = "pred"
+	default:
+		return 0, ""
+	}
+	bad := p.badConstFor(kind)
+	rets := expandedReturns(fn)
+	for _, r := range rets {
+		if isNilConst(stripConv(r.Results[n-1])) {
+			continue
+		}
+		if k, ok := constInt(stripConv(r.Results[j])); ok && k == bad {
+			continue
+		}
+		// the status is known to be the bad one on this branch
+		known := false
+		for _, f := range r.Facts {
+			if bo, ok := f.Cond.(*ssa.BinOp); ok && (bo.Op == token.EQL) == f.Truth && (bo.Op == token.EQL || bo.Op == token.NEQ) && sameValue(bo.X, r.Results[j]) {
+				if k, ok := constInt(bo.Y); ok && k == bad {
+					known = true
+				}
+			}
+		}
+		if !known {
+			return 0, ""
+		}
+	}
+	if len(rets) == 0 {
+		return 0, ""
+	}
+	return j, kind
+}
+
 func constOf(c *types.Const) int64 {
 	v, _ := constInt(ssa.NewConst(c.Val(), c.Type()))
 	return v
@@ -297,8 +344,8 @@ var rulePairP = &Rule{
 		}
 		out.Counts["pair_functions"] = nf
 		out.Counts["returns"] = nr
-		out.Floors["pair_functions"] = 40
-		out.Floors["returns"] = 150
+		out.Floors["pair_functions"] = 13
+		out.Floors["returns"] = 50
 		return out
 	},
 }
@@ -788,6 +835,14 @@ func mkPairC(name string, tolerant bool, doc string) *Rule {
 						kind := p.pairKind(sig)
 						if kind == "" {
 							stV = nil
+							// a helper returning (…, status|outcome, error) that sets the
+							// error only together with the failed status / unknown outcome
+							if j, k := p.statusAmongResults(c.Call.StaticCallee()); k != "" {
+								kind, stV = k, extractOf(c, j)
+								if stV == nil {
+									kind = ""
+								}
+							}
 						}
 						if errV == nil || len(*errV.Referrers()) == 0 {
 							dk := fnName(fn) + " drops the error of " + callee
@@ -819,7 +874,7 @@ func mkPairC(name string, tolerant bool, doc string) *Rule {
 				}
 			}
 			out.Counts["may_fail_call_sites"] = ncalls
-			out.Floors["may_fail_call_sites"] = 120
+			out.Floors["may_fail_call_sites"] = 40
 			return out
 		},
 	}
@@ -949,6 +1004,23 @@ func (p *Prog) launderCheck(fn *ssa.Function, c *ssa.Call, stV, errV ssa.Value) 
 		fs := factsAt(blk)
 		if p.statusFact(fs, stV, failedK) == -1 {
 			continue // not failed on this exit
+		}
+		// the status itself leaves through one of the results (a helper
+		// returning (…, status, error)): nothing is laundered
+		carried := false
+		for _, rv := range r.Results[:len(r.Results)-1] {
+			if !types.Identical(rv.Type(), p.A.StatusType) {
+				continue
+			}
+			if sameValue(rv, stV) {
+				carried = true
+			}
+			if k, ok := constInt(stripConv(rv)); ok && k == failedK {
+				carried = true
+			}
+		}
+		if carried {
+			continue
 		}
 		e := r.Results[len(r.Results)-1]
 		sh := p.shapeOf(e)
